@@ -5065,6 +5065,7 @@ impl<'a> YamlString<'a> {
     /// For `key: |`, returns the indent of `key`.
     /// For `- key: |`, returns indent 2 (after `- `), not 0.
     /// For `- |` (direct block scalar in sequence), returns 0.
+    /// For `- - |` (the same in a compact nested sequence), returns 2.
     fn compute_key_indent(text: &[u8], indicator_pos: usize) -> usize {
         // Find start of line
         let mut line_start = indicator_pos;
@@ -5081,23 +5082,36 @@ impl<'a> YamlString<'a> {
 
         let line_indent = pos - line_start;
 
-        // Check if we start with `-` (sequence item indicator)
-        if pos < text.len() && text[pos] == b'-' {
-            // Check if followed by space or tab (block sequence indicator)
-            if pos + 1 < text.len()
-                && (text[pos + 1] == b' ' || text[pos + 1] == b'\t' || text[pos + 1] == b'\n')
-            {
-                // Check if there's a `:` between `-` and the indicator
-                // If so, it's `- key: |` and we should return line_indent + 2
-                // If not, it's `- |` and we should return line_indent
-                let has_colon = text
-                    .get((pos + 2)..indicator_pos)
-                    .is_some_and(|slice| slice.contains(&b':'));
-                if has_colon {
-                    return line_indent + 2;
-                }
-                return line_indent;
+        // Walk the line's leading `- ` sequence entry indicators: each opens a
+        // collection at its own column, so `- - |` hangs off the *second*
+        // dash, and the key of `-   key: |` is wherever the key actually
+        // starts, not two columns in. These are the columns the parser
+        // measures an explicit indentation indicator from, so both sides must
+        // agree on them or `- - |2` keeps two spaces of indentation as content.
+        let mut entry_indent = None;
+        while pos + 1 < indicator_pos
+            && text[pos] == b'-'
+            && matches!(text[pos + 1], b' ' | b'\t' | b'\n')
+        {
+            entry_indent = Some(pos - line_start);
+            pos += 1;
+            while pos < indicator_pos && matches!(text[pos], b' ' | b'\t') {
+                pos += 1;
             }
+        }
+
+        if let Some(entry_indent) = entry_indent {
+            // Check if there's a `:` between the last `-` and the indicator
+            // If so, it's `- key: |` and the key's own column is the indent
+            // If not, it's `- |` and the entry's column is
+            let has_colon = text
+                .get(pos..indicator_pos)
+                .is_some_and(|slice| slice.contains(&b':'));
+            return if has_colon {
+                pos - line_start
+            } else {
+                entry_indent
+            };
         }
 
         // Otherwise, key indent is the line's leading spaces
